@@ -7,6 +7,9 @@ THEOREMS = ['Bluebell.C19_prints_library_result', 'Bluebell.C19_rejects_without_
 ODD_SEPARATORS = ['\x0b', '\x0c', '\x1c', '\x1d', '\x1e', '\x85', ' ', ' ', '\r', '\r\n']
 FLAGS = [[], ['--pretty'], ['--json'], ['--json', '--pretty']]
 URI = '/akn/za/act/2020/1'
+# work-level, with a language only (str(FrbrUri) drops it), with expression date, component, portion, subtype and locality
+URIS = [URI, URI, '/akn/za/act/2009/10/fra', '/akn/ke/act/ln/2017/3/swa@2018-01-01', '/akn/za-cpt/act/by-law/2020/parks/eng/!main',
+        '/akn/za/act/2020/1/afr/~sec_2', '/akn/na/judgment/nahc/2021/5/por@']
 
 
 def run_cli(repo, uri, root, path, flags, timeout=120):
@@ -80,6 +83,7 @@ def run(ctx, info):
         cases.append((fixed, 'debatereport', f))
     cases.append(('SCHEDULES foo\n', 'act', []))
     cases.append(('SCHEDULES foo\n', 'act', ['--json']))
+    uris = [rng.choice(URIS) for _ in cases]
     tmp = os.path.join(ctx.work, 'cli')
     os.makedirs(tmp, exist_ok=True)
     results = [None] * len(cases)
@@ -91,7 +95,7 @@ def run(ctx, info):
             with open(path, 'w', encoding='utf-8', newline='') as f:
                 f.write(t)
             try:
-                results[i] = run_cli(repo, URI, root, path, flags)
+                results[i] = run_cli(repo, uris[i], root, path, flags)
             except Exception as ex:  # noqa
                 results[i] = (None, '', f'{type(ex).__name__}: {ex}')
     k = 12
@@ -104,7 +108,7 @@ def run(ctx, info):
     for i, ((t, root, flags), (rc, out, err)) in enumerate(zip(cases, results)):
         path = os.path.join(tmp, f'in{i}.txt')
         text = open(path, 'r').read()   # the text as the tool reads it
-        lib = library(URI, root, text, flags)
+        lib = library(uris[i], root, text, flags)
         v = None
         if 'stdout' in lib:
             dist['printed'] = dist.get('printed', 0) + 1
@@ -125,8 +129,8 @@ def run(ctx, info):
         if v:
             nb += 1
             if len(failures) < 15:
-                failures.append({'kind': 'oracle', 'finding': None, 'summary': f'bluebell {URI} {root} <file> {" ".join(flags)}: {v}; text {t[:80]!r}',
-                                 'case': {'text': t, 'root': root, 'flags': flags}})
+                failures.append({'kind': 'oracle', 'finding': None, 'summary': f'bluebell {uris[i]} {root} <file> {" ".join(flags)}: {v}; text {t[:80]!r}',
+                                 'case': {'text': t, 'root': root, 'flags': flags, 'uri': uris[i]}})
     ctx.oblige('tie/oracle cli: stdout and exit status of the real script = library result, byte for byte', 'tie', nb == 0,
                f'{nb} differences in {len(cases)} runs; outcomes {dist}')
     cov = {'evaluations': len(cases), 'distinct_nontrivial': len({(t, r, tuple(f)) for t, r, f in cases if len(t) > 10}), 'outcomes': dist,
@@ -145,8 +149,8 @@ def replay(ctx, rep):
     path = os.path.join(ctx.work, 'replay.txt')
     with open(path, 'w', encoding='utf-8', newline='') as f:
         f.write(c['text'])
-    rc, out, err = run_cli(ctx.repo, URI, c['root'], path, c['flags'])
-    lib = library(URI, c['root'], open(path).read(), c['flags'])
+    rc, out, err = run_cli(ctx.repo, c.get('uri', URI), c['root'], path, c['flags'])
+    lib = library(c.get('uri', URI), c['root'], open(path).read(), c['flags'])
     bad = (('stdout' in lib) and (rc != 0 or out != lib['stdout'])) or (lib.get('rejected') and (rc == 0 or out != '')) or (lib.get('raised') and rc == 0)
     print('REPRODUCED' if bad else 'not reproduced')
     return 1 if bad else 0
